@@ -196,10 +196,11 @@ def make_state(rng, cand, d, rip, want_fault=None, force_T=None):
         gs = rng.choice([0, 0x2000, 0x80, rng.randrange(1 << 12) * 16])
     # stack pointer: inside the stack area unless the instruction uses RSP as data
     regs[6] = STACK + 0x800 + rng.choice([0, 8, 16, 0x100])
-    if rng.random() < (0.12 if d["code"].split("_")[0] in ("Push", "Pushq", "Pop", "Call", "Retnq") else 0.03):
+    if rng.random() < (0.25 if d["code"].split("_")[0] in ("Push", "Pushq", "Pop", "Call", "Retnq") else 0.03):
         regs[6] = rng.choice([STACK, STACK + PAGE - 8, STACK + PAGE, STACK + 4, AREA_RO + 0x100, AREA_NONE + 0x100, 0x40000000,
                               STACK + PAGE - 7, STACK + PAGE - 9, STACK + PAGE - 1, STACK + PAGE - 15, STACK + PAGE - 16, STACK - 1,
-                              STACK + 1, STACK + 7, STACK + 8])
+                              STACK + 1, STACK + 7, STACK + 8, STACK + PAGE - 2, STACK + PAGE - 4, STACK + PAGE - 6, STACK + PAGE - 10,
+                              STACK + PAGE - 12, STACK + PAGE - 3, STACK + PAGE - 5])
     has_mem = "Memory" in (d["k0"], d["k1"], d["k2"], d["k3"])
     placement = "none"
     if has_mem:
@@ -298,6 +299,10 @@ def make_state(rng, cand, d, rip, want_fault=None, force_T=None):
                 a[3][w] = blob(48)
     if rng.random() < 0.4:
         apply_value_pairs(rng, case, d, T if has_mem and placement in ("rw", "rwx", "edge") else None)
+    if d["code"].endswith("_CL") and rng.random() < 0.7 and d["base"] not in ("RCX", "ECX") and d["index"] not in ("RCX", "ECX"):
+        # shift counts around the masking boundaries (CL is masked to 5 or 6 bits; a masked count of 0 changes nothing)
+        cl = rng.choice([0, 1, 2, 7, 8, 15, 16, 17, 31, 32, 33, 63, 64, 65, 0x80, 0x81, 0xa0, 0xc0, 0xe0, 0xff, 0x1f, 0x3f, 0x40])
+        regs[2] = (regs[2] & ~0xff & M64) | cl
     return case
 
 
@@ -364,11 +369,21 @@ def apply_value_pairs(rng, case, d, T):
         dv = rng.choice([1, m, 2, top, top - 1, 3, rng.randrange(1, 1 << w)])
         sdv = dv - (1 << w) if dv & top else dv
         q = rng.choice([top, top - 1, m, (1 << w), top + 1, 0, 1]) if fam == "Div" else rng.choice([-top, top - 1, top, -top - 1, -1, 0])
+        if fam == "Idiv" and rng.random() < 0.2:
+            # the most negative double-width dividend divided by -1 (and neighbours)
+            dv = rng.choice([m, m, 1, m - 1])
+            sdv = dv - (1 << w) if dv & top else dv
+            q = 0
+            special_dividend = rng.choice([1 << (2 * w - 1), (1 << (2 * w - 1)) + 1, (1 << (2 * w)) - 1, 1 << (w - 1)])
+        else:
+            special_dividend = None
         rem = rng.randrange(0, min(abs(sdv) if fam != "Div" else dv, 1 << 16) or 1)
         if fam == "Div":
             dividend = q * dv + rem
         else:
             dividend = q * sdv + (rem if q * sdv >= 0 else -rem)
+        if special_dividend is not None:
+            dividend = special_dividend
         dividend &= (1 << (2 * w)) - 1
         lo, hi = dividend & m, dividend >> w
         if d["k0"] == "Register":
@@ -464,6 +479,7 @@ def generate(axh, seed, n, codes_filter=None, per_code_cap=None):
     rounds = 0
     while len(out) < n and rounds < 60:
         rounds += 1
+        pending = []
         cands = [gen_candidate(rng) for _ in range(max(4000, n))]
         cands += [gen_candidate(rng, force="a32") for _ in range(max(800, n // 5))]
         cands += [gen_candidate(rng, force="rsp") for _ in range(max(400, n // 10))]
@@ -497,10 +513,28 @@ def generate(axh, seed, n, codes_filter=None, per_code_cap=None):
             count[d["code"]] = k + 1
             shape_count[skey] = sk + 1
             case = make_state(rng, c, d, rip)
-            out.append(case)
-            if len(out) >= n:
+            pending.append(case)
+            if len(out) + len(pending) >= n:
                 break
-    return out, count
+        # the displacement / moffs patching must not have changed what the bytes decode to
+        # (an "opcode" byte that is itself a prefix shifts the fields): re-decode and drop such cases
+        if pending:
+            class _C:
+                pass
+            cc = []
+            for case in pending:
+                x = _C()
+                x.bytes = case["code"]
+                cc.append(x)
+            for case, toks in zip(pending, decode_bulk(axh, cc, rip)):
+                d2 = dec_dict(toks)
+                if d2 is None or d2["code"] != case["codename"] or int(d2["len"], 16) != len(case["code"]) or \
+                        [d2[x] for x in ("r0", "r1", "r2", "r3", "base", "index")] != case["named"]:
+                    count[case["codename"]] = count.get(case["codename"], 1) - 1
+                    continue
+                out.append(case)
+            pending = []
+    return out[:n], count
 
 
 def generate_edge_sweep(axh, seed):
